@@ -96,7 +96,9 @@ P("C01", module="AJ.Props.C01All", extra=[("AJ.Props.C01", ["C01"]), ("AJ.Props.
   level_note="Lean kernel; the limits are part of the grammar because a repeated key hides the value it overwrites (kernel-checked counterexample to the naive statement); "
   "floating-point accuracy is C12's concern; 'destination entirely replaced' is checked by the correspondence (prefilled documents)",
   suites=lambda tier: [S.JsonValidSuite(cfg=DEF), S.JsonValidSuite(cfg=CFG_ALL, n=1500 if tier == "quick" else 100000), S.ReuseSuite(cfg=DEF, n=80 if tier == "quick" else 4000),
-                       S.JsonDocSuite(cfg=DEF, n=800 if tier == "quick" else 60000), S.JsonDocSuite(cfg=G["len1"], n=300 if tier == "quick" else 30000)],
+                       S.JsonDocSuite(cfg=DEF, n=800 if tier == "quick" else 60000), S.JsonDocSuite(cfg=G["len1"], n=300 if tier == "quick" else 30000),
+                       # "for every destination state": destinations that went through remove, swap, move, copy and earlier deserializations (histories with deserj into members and elements)
+                       S.HistSuite(cfg=G["default"], nh=40 if tier == "quick" else 1500), S.HistSuite(cfg=G["tiny2"], nh=30 if tier == "quick" else 1000)],
   partial=[])
 
 P("C02", module="AJ.Props.C02All", extra=[("AJ.Props.SlotCor", ["C02"]), ("AJ.Props.C02", ["C02"]), ("AJ.Props.C02Parse", ["C02"])],
@@ -158,7 +160,9 @@ P("C09", module="AJ.Props.C09All", extra=[("AJ.Props.C09", ["C09"]), ("AJ.Props.
   "implementation's document is checked against the encoded value.",
   level_note="the value denoted by a non-minimal encoding (as opposed to its acceptance and prefix behaviour) is tied by the correspondence and the independent codec; USE_DOUBLE=0 is modelled as rounding every stored double to binary32",
   suites=lambda tier: [S.MpDeSuite(cfg=DEF), S.MpDeSuite(cfg={"USE_DOUBLE": 0}, n=1200 if tier == "quick" else 60000),
-                       S.MpDeSuite(cfg={"USE_LONG_LONG": 0}, n=800 if tier == "quick" else 40000)],
+                       S.MpDeSuite(cfg={"USE_LONG_LONG": 0}, n=800 if tier == "quick" else 40000),
+                       # slot-level model with the string limit of the build: keys and strings at the longest storable length, 1- and 2-byte lengths
+                       S.MpDocSuite(cfg=DEF, n=600 if tier == "quick" else 60000), S.MpDocSuite(cfg=G["len1"], n=400 if tier == "quick" else 40000)],
   partial=["value of non-minimal encodings as a theorem"])
 
 P("C10", module="AJ.Props.C10All", extra=[("AJ.Props.C10", ["C10"]), ("AJ.Props.C10Class", ["C10"]), ("AJ.Props.C01Doc", ["C10"]), ("AJ.Props.C10Gen", ["C10"])], level_text="C10.unquoted_class_is_source / number_class_is_source_* / space_class_is_source / quote_class_is_source: the character classes of the model are exactly the tables obtained on every run by calling the private predicates of the compiled JsonDeserializer for all 256 bytes in three configurations (translator tie). Theorems C10.accepts_iff / ok_iff_dialect: for every configuration (comments, NaN, Infinity, unicode decoding on or off), nesting limit and byte string, the deserializer model "
@@ -326,7 +330,9 @@ P("C06", module="AJ.Props.C06All", extra=[("AJ.Props.C19", ["C06"]), ("AJ.Props.
   "no-failure hypothesis is needed (a key saved before its member's slot allocation fails stays in the table until clear()); the same bound is checked on the instrumented allocator (total requested and peak) for sampled and hostile inputs; moved-from/swapped documents are covered by the correspondence",
   suites=lambda tier: [S.HistSuite(cfg=G["default"]), S.HistSuite(cfg=G["tiny1"], nh=40 if tier == "quick" else 2000), S.FaultSuite(cfg=G["default"], nh=60 if tier == "quick" else 2000),
                        S.MpDeSuite(cfg=DEF, n=600 if tier == "quick" else 50000), S.DeserMemSuite(cfg=DEF), S.JsonDocSuite(cfg=DEF, n=800 if tier == "quick" else 60000), S.MpDocSuite(cfg=DEF, n=800 if tier == "quick" else 60000), S.LimitSuite(cfg=G["len1"]), S.LimitSuite(cfg=G["id1"]),
-                       S.HistSuite(cfg=G["nolonglong"], nh=40 if tier == "quick" else 2000)],
+                       S.HistSuite(cfg=G["nolonglong"], nh=40 if tier == "quick" else 2000),
+                       # filtered runs: allocator log against the model; under ASan a released block that is read again aborts the harness
+                       S.JsonDocFSuite(cfg=DEF, n=800 if tier == "quick" else 60000), S.MpDocFSuite(cfg=DEF, n=800 if tier == "quick" else 60000), S.JsonDocFSuite(cfg=G["tiny2"], n=300 if tier == "quick" else 30000)],
   partial=["the bound is on the memory HELD (pool blocks, pool table, string nodes, transient buffer), related to the textual allocator log by the ledger theorems; move/swap by correspondence"])
 
 P("C19", module="AJ.Props.C19All", extra=[("AJ.Props.C19", ["C19"]), ("AJ.Props.C19Str", ["C19"]), ("AJ.Props.C19Geo", ["C19"])], level_text="Theorems for every geometry with poolCap >= 1 and initPools >= 1, every operation sequence and failure oracle: slot identifiers never wrap, "
